@@ -161,14 +161,15 @@ def outer_oracle(alg, keys, vals):
 
 
 def tan_allowed(alg, keys):
-    """outertan goes through the symbolic inverse of outercos, which is slow for dense mixed-grade patterns"""
-    if alg.d <= 2:
+    """outertan goes through the symbolic inverse of outercos, which takes minutes for dense patterns in d >= 5
+    (and for mixed grades with a scalar part in d >= 3): those patterns are left to outersin / outercos"""
+    if alg.d <= 2 or all(bin(k).count('1') == 1 for k in keys):
         return True
-    if 0 not in keys:
-        return len(keys) <= 6 and alg.d <= 5
     if alg.d == 3:
-        return len(keys) <= 4
-    return len(keys) <= 2
+        return 0 not in keys or len(keys) <= 4
+    if alg.d == 4:
+        return 0 not in keys or len(keys) <= 2
+    return len(keys) <= (2 if 0 in keys else 3)
 
 
 def check_outer(alg, keys, vals, do_tan=True):
